@@ -736,6 +736,10 @@ class AttackGraph():
         for attacker in self.attackers:
             attacker.entry_points = [entry_point for entry_point in \
                 attacker.entry_points if entry_point is not node]
+            # (also when the node did not list the attacker itself)
+            attacker.reached_attack_steps[:] = [reached_step \
+                for reached_step in attacker.reached_attack_steps \
+                if reached_step is not node]
         self.nodes.remove(node)
         # The node is detached on both sides, it can be added again later
         # without dragging links that its former neighbours do not have.
@@ -809,8 +813,21 @@ class AttackGraph():
                 logger.error(msg, node_id)
                 raise AttackGraphException(msg % node_id)
 
+        # An attacker can also come with entry points and reached attack
+        # steps of its own, they have to be nodes of this graph as well.
+        for node in list(attacker.entry_points) + \
+                list(attacker.reached_attack_steps):
+            if self._id_to_node.get(node.id) is not node:
+                raise AttackGraphException(
+                    f'Attacker "{attacker.name}" refers to node '
+                    f'"{node.full_name}" which is not part of the graph.')
+
         attacker.id = new_attacker_id
         self.next_attacker_id = max(attacker.id + 1, self.next_attacker_id)
+        for node in attacker.reached_attack_steps:
+            # The node has to know about it, too
+            if not node.is_compromised_by(attacker):
+                node.compromised_by.append(attacker)
         for node in reached_nodes:
             attacker.compromise(node)
         attacker.entry_points.extend(entry_point_nodes)
@@ -834,6 +851,13 @@ class AttackGraph():
             )
         for node in list(attacker.reached_attack_steps):
             attacker.undo_compromise(node)
+        attacker.reached_attack_steps[:] = []
+        for node in self.nodes:
+            # (also the nodes that the attacker did not list itself)
+            if node.compromised_by:
+                node.compromised_by[:] = [compromising_attacker \
+                    for compromising_attacker in node.compromised_by \
+                    if compromising_attacker is not attacker]
         # Like the reached attack steps, the entry points refer to nodes of
         # this graph that may be gone by the time the attacker is added again.
         attacker.entry_points = []
